@@ -40,11 +40,11 @@ fn main() {
             "stress: the thread schedule is the operating system's; a green stress pass says nothing about schedules that did not occur",
         ],
         parts: vec![
-            PropPart::new("locks", 60_000, 4_000_000, lm::lm_strategy, lm::lm_check).boxed(),
-            PropPart::new("coord", 40_000, 2_500_000, coord::co_strategy, coord::co_check).boxed(),
-            PropPart::new("participant", 20_000, 1_000_000, participant::pa_strategy, participant::pa_check).boxed(),
+            PropPart::new("locks", 150_000, 4_000_000, lm::lm_strategy, lm::lm_check).boxed(),
+            PropPart::new("coord", 120_000, 2_500_000, coord::co_strategy, coord::co_check).boxed(),
+            PropPart::new("participant", 80_000, 2_000_000, participant::pa_strategy, participant::pa_check).boxed(),
             Box::new(graphs::digraphs_part()),
-            PropPart::new("graphops", 30_000, 2_000_000, graphs::graphops_strategy, graphs::graphops_check).boxed(),
+            PropPart::new("graphops", 80_000, 3_000_000, graphs::graphops_strategy, graphs::graphops_check).boxed(),
             PropPart::new("expiry", 1_600, 24_000, expiry::exp_strategy, expiry::exp_check).boxed(),
             PropPart::new("expiry_coord", 1_600, 24_000, coord::co_timeout_strategy, coord::co_check).boxed(),
             Box::new(stress::stress_part()),
